@@ -5,17 +5,18 @@ from vf.env import pick, verdict, observe, safe, build, DictCache
 from vf.ob import obligation, shard
 
 META = {
-    "bounds": "4 mutation documents (2-4 root fields, aliases, fragments at the root, nested selections with a list), <= 4 gated nested resolvers per document "
-              "(every completion order), failure placement over {none, each gated nested field, a nullable root, a non-null root, argument coercion of a nullable root}; concurrent and sequential engine configurations, mutation root type named Mutation / custom name / added by `extend schema`",
+    "bounds": "5 mutation documents (2-4 root fields, aliases, fragments at the root, nested selections with a list), <= 4 gated nested resolvers per document "
+              "(every completion order), failure placement over {none, each gated nested field, a nullable root, a non-null root, argument coercion of a nullable root, a non-null root whose custom scalar answers null during completion}; concurrent and sequential engine configurations, mutation root type named Mutation / custom name / added by `extend schema`",
     "outside": "more than 4 simultaneously pending nested resolvers; subscription/query operations (C08)",
     "explanation": "Start/finish log of every resolver: the first event of root field i+1 must come after the last event of root field i's whole subtree.",
 }
 SDL = """
 directive @ab on ARGUMENT_DEFINITION
+scalar Tok
 type Leaf { n: Int audit: String! }
 type Mid { n: Int leaf: Leaf leaves: [Leaf] audit: String! bal: Int }
 type Query { a: Int }
-type Mutation { first: Mid second: Mid third(v: Int @ab): Int nnroot: Int! }
+type Mutation { first: Mid second: Mid third(v: Int @ab): Int nnroot: Int! tok: Tok! }
 """
 LOG = []
 GATES = {}
@@ -42,6 +43,19 @@ async def universal(parent, args, ctx, info):
 
 
 ARGFAIL = [None]
+TOKNULL = [False]
+
+
+class Tok:
+    """a custom scalar that may answer null for a real value (e.g. a blank token): at a non-null root that is a failure produced during completion"""
+    def coerce_output(self, v):
+        return None if TOKNULL[0] else v
+
+    def coerce_input(self, v):
+        return v
+
+    def parse_literal(self, ast):
+        return getattr(ast, "value", None)
 
 
 class AB:
@@ -54,8 +68,10 @@ class AB:
 
 
 from tartiflette import Directive  # noqa: E402
+from tartiflette import Scalar  # noqa: E402
 for _n in ("c09_a", "c09_b", "c09_c", "c09_d"):
     Directive("ab", schema_name=_n)(AB())
+    Scalar("Tok", schema_name=_n)(Tok)
 SDL_NAMED = SDL.replace("type Mutation {", "type Ops {") + "\nschema { query: Query mutation: Ops }\n"      # the mutation root need not be called Mutation
 SDL_EXT = SDL.replace("type Mutation {", "type Changes {") + "\nschema { query: Query }\nextend schema { mutation: Changes }\n"
 ENGS = [build(SDL, "c09_a", custom_default_resolver=universal, query_cache_decorator=DictCache()),
@@ -67,7 +83,7 @@ except Exception:        # `extend schema` with an operation type may not be sup
     pass
 LEAF = {"n": 3, "audit": "ok"}
 MID = {"n": 2, "leaf": LEAF, "leaves": [LEAF, {"n": 4, "audit": "x"}], "audit": "au", "bal": 10}
-DATA = {"first": MID, "second": MID, "nnroot": 1}
+DATA = {"first": MID, "second": MID, "nnroot": 1, "tok": "t0"}
 DOCS = {
     "M1": ("mutation { first { audit bal n } second { n } third(v: 1) }", [("first", "audit"), ("first", "bal"), ("first", "n"), ("second", "n")], ["first", "second", "third"]),
     "M2": ("mutation { a: first { ...F } ...R b: third(v: 2) } fragment R on %(root)s { second { leaves { n } } } fragment F on Mid { n bal }",
@@ -76,9 +92,10 @@ DOCS = {
            ["first", "second", "nnroot", "third"]),
     "M4": ("mutation { x: third(v: 1) first { leaves { audit n } } y: third(v: 2) }", [("first", "leaves", 0, "audit"), ("first", "leaves", 0, "n"), ("first", "leaves", 1, "audit"), ("first", "leaves", 1, "n")],
            ["x", "first", "y"]),
+    "M5": ("mutation { first { n audit } tok third(v: 5) }", [("first", "n"), ("first", "audit")], ["first", "tok", "third"]),
 }
 ROOTS = ["Mutation", "Mutation", "Ops", "Changes"]
-ARGROOT = {"M1": ("third", 1), "M2": ("b", 2), "M3": ("third", 3), "M4": ("x", 1)}       # (response key, v) of the root field whose argument coercion is made to fail
+ARGROOT = {"M1": ("third", 1), "M2": ("b", 2), "M3": ("third", 3), "M4": ("x", 1), "M5": ("third", 5)}       # (response key, v) of the root field whose argument coercion is made to fail
 
 
 def doc_text(doc, eng):
@@ -122,7 +139,7 @@ def c09_serial(c0: int, c1: int, c2: int, c3: int, fault: int) -> bool:
     _, gates, roots = DOCS[sh["doc"]]
     q = doc_text(sh["doc"], sh["eng"])
     fault = pick(fault, len(gates) + 4)
-    del LOG[:]; GATES.clear(); FAULTS.clear(); ARGFAIL[0] = None
+    del LOG[:]; GATES.clear(); FAULTS.clear(); ARGFAIL[0] = None; TOKNULL[0] = False
     argkey = None
     if fault == len(gates) + 3:
         argkey, ARGFAIL[0] = ARGROOT[sh["doc"]]
@@ -132,9 +149,11 @@ def c09_serial(c0: int, c1: int, c2: int, c3: int, fault: int) -> bool:
     if 1 <= fault <= len(gates):
         fpath = gates[fault - 1]
     elif fault == len(gates) + 1:
-        fpath = (roots[1],)
+        fpath = (roots[1] if roots[1] != "tok" else roots[2],)       # a nullable root field that is not the first one
     elif fault == len(gates) + 2:
         fpath = ("nnroot",)
+        if "tok" in roots:
+            fpath = None; TOKNULL[0] = True      # the non-null root `tok` resolves fine, its scalar answers null during completion
     if fpath is not None:
         FAULTS[fpath] = True
     cs = [c0, c1, c2, c3]
@@ -156,7 +175,7 @@ def c09_serial(c0: int, c1: int, c2: int, c3: int, fault: int) -> bool:
     if set(starts) != set(ends) or len(starts) != len(set(starts)) or loop.pending or not all(t.done() for t in loop.tasks):
         return verdict(False)
     data = resp.get("data")
-    nn_failed = fpath == ("nnroot",) and "nnroot" in roots
+    nn_failed = (fpath == ("nnroot",) and "nnroot" in roots) or TOKNULL[0]
     if nn_failed:
         return verdict(data is None and bool(resp.get("errors")))
     if data is None or list(data.keys()) != roots:
